@@ -39,9 +39,12 @@ class Run:
         log = self.b.log
         ident = rt.Identity()
         pol = make_policy(policy)
-        if driver_kind == "logix":
-            self.prj = project or small_project(rng)
+        if driver_kind in ("logix", "micro"):
+            micro = driver_kind == "micro"
+            self.prj = project or small_project(rng, fw=12 if micro else None, micro800=micro)
             ident.major = self.prj.fw_major
+            if micro:
+                ident.name = "2080-LC50-48QWB"
             self.dev = reflogix.LogixDevice(ident, rng, log, self.prj)
             self.dev.page_mode, self.dev.tmpl_frag, self.dev.read_frag = "all", "all", "full"
             self.drv_factory = lambda: p.LogixDriver(self.b.host, init_tags=init_tags)
@@ -65,7 +68,7 @@ class Run:
                     return (rng.choice([0x05, 0x08, 0x0F, 0xFF]), (), b"")
                 return None
             self.dev.force_status = force
-        self.target = rt.RefTarget(rng, front=self.dev, routes={((1, 0),): self.dev}, policy=pol, log=log)
+        self.target = rt.RefTarget(rng, front=self.dev, routes={((1, 0),): self.dev, (): self.dev}, policy=pol, log=log)
         self.b.set_target(self.target)
         self.drv = self.drv_factory()
         self.io_ops_total = 0
@@ -116,7 +119,7 @@ class Run:
                 with d:
                     if op == "with_exc":
                         raise UserError("user code failed inside the with block")
-                    if self.kind == "logix":
+                    if self.kind in ("logix", "micro"):
                         tags = self.prj.user_tags()
                         return d.read(tags[0].full_name)
                     if self.kind == "slc":
@@ -190,7 +193,7 @@ class Run:
             if st != "ok" or not out:
                 self.findings.append(("reopen-fails", f"open() after close() failed against a healthy target: {out!r:.160} [{ctxt}]"))
             else:
-                st, out = self.do("gm_conn" if self.kind == "cip" or (self.kind == "logix" and not self.drv.tags) else "read" if self.kind == "logix" else "slc_read")
+                st, out = self.do("gm_conn" if self.kind == "cip" or (self.kind in ("logix", "micro") and not self.drv.tags) else "read" if self.kind in ("logix", "micro") else "slc_read")
                 good = st == "ok" and (bool(out) if not isinstance(out, list) else all(out))
                 if not good:
                     self.findings.append(("operation-after-reopen-fails", f"first operation after re-open failed: {out!r:.200} [{ctxt}]"))
@@ -205,8 +208,8 @@ class Run:
         self.b.close()
 
 
-def small_project(rng, fw=None):
-    b = rpj.ProjectBuilder(rng, fw=fw or rng.choice([17, 20, 32]))
+def small_project(rng, fw=None, micro800=False):
+    b = rpj.ProjectBuilder(rng, fw=fw or rng.choice([17, 20, 32]), micro800=micro800)
     u = b.udt("Small", [("a", "DINT", 0), ("f", "BOOL", 0), ("r", "REAL", 0)])
     b.tag("d1", "DINT")
     b.tag("i1", "INT")
